@@ -30,6 +30,12 @@ func init() {
 		"(*encoding/xml.Encoder).Encode":        extEncode,
 		"(*encoding/xml.Encoder).EncodeElement": extEncode,
 		"(*encoding/xml.Encoder).EncodeToken":   extEncodeToken,
+		"os.MkdirAll":                 extIOErr,
+		"os.Create":                   extOpenResource,
+		"archive/zip.NewWriter":       extZipNewWriter,
+		"(*archive/zip.Writer).Create": extZipCreate,
+		"(*archive/zip.Writer).Close":  extCloseResource,
+		"(*os.File).Close":            extCloseResource,
 	}
 	for _, n := range []string{"HasPrefix", "HasSuffix", "Contains", "TrimSpace", "TrimPrefix", "TrimSuffix", "ToLower", "ToUpper", "ReplaceAll", "Index", "Count", "Repeat", "EqualFold", "LastIndex", "Title"} {
 		externals["strings."+n] = extPureUF("strings_" + n)
@@ -40,6 +46,7 @@ func init() {
 	externals["strconv.FormatBool"] = extPureUF("strconv_FormatBool")
 	externals["strconv.FormatInt"] = extPureUF("strconv_FormatInt")
 	invokes = map[string]invHandler{
+		"io.Writer.Write": invZipEntryWrite,
 		"error.Error": func(f *frame, cm *ssa.CallCommon, recv Val, a []Val, st *State, n string, rt types.Type, p token.Pos) Val {
 			uf := f.c.g.UF("error_Error", []string{SIface}, SStr)
 			return Val{T: f.c.define(n, SStr, fmt.Sprintf("(%s %s)", uf, recv.T)), Typ: rt}
@@ -248,4 +255,117 @@ func extEncode(f *frame, cm *ssa.CallCommon, args []Val, st *State, name string,
 func extEncodeToken(f *frame, cm *ssa.CallCommon, args []Val, st *State, name string, resT types.Type, pos token.Pos) Val {
 	f.c.assumed["(*xml.Encoder).EncodeToken: total, may fail, writes no document memory"] = true
 	return f.freshResult(resT, st, name)
+}
+
+
+// ---- I/O model (property C05): every external write/close may fail -------------------------------
+// Ghost state (pseudo-heaps, havocked/merged like any heap, excluded from unchangedHeap()):
+//   iofail     Bool               some I/O call on a live resource returned a non-nil error
+//   open       Ref -> Bool        resources (files, zip writers) opened and not yet closed successfully
+//   opencount  Int                number of such resources
+//   zipdom/zipdata  Str -> Bool/Slice   entries completely written to the zip archive under construction
+//   zipentry   Ref -> Str         entry name an io.Writer returned by (*zip.Writer).Create writes to
+func ioHeaps(g *Gen) (fail, open, count, zdom, zdata, zentry string) {
+	fail, open, count, zdom, zdata, zentry = "G_ghost_iofail", "G_ghost_open", "G_ghost_opencount", "G_ghost_zipdom", "G_ghost_zipdata", "G_ghost_zipentry"
+	g.TE.noteHeapRaw(fail, SBool)
+	g.TE.noteHeapRaw(open, "(Array Ref Bool)")
+	g.TE.noteHeapRaw(count, SInt)
+	g.TE.noteHeapRaw(zdom, "(Array Str Bool)")
+	g.TE.noteHeapRaw(zdata, "(Array Str Slice)")
+	g.TE.noteHeapRaw(zentry, "(Array Ref Str)")
+	return
+}
+
+const ioAssumption = "I/O model: os.MkdirAll, os.Create, (*zip.Writer).Create, io.Writer.Write on a zip entry, (*zip.Writer).Close and (*os.File).Close are total and may each return any error at any call; a file is complete on disk only if every such call succeeded and every opened resource was closed successfully (kernel/file system behaviour itself is not modelled)"
+
+func (f *frame) noteIOErr(st *State, errT string) {
+	fail, _, _, _, _, _ := ioHeaps(f.c.g)
+	st.heaps[fail] = f.c.define("iofail", SBool, fmt.Sprintf("(or %s (not (= (itag %s) 0)))", st.Heap(fail), errT))
+	f.c.assumed[ioAssumption] = true
+}
+
+func extIOErr(f *frame, cm *ssa.CallCommon, args []Val, st *State, name string, resT types.Type, pos token.Pos) Val {
+	r := f.freshResult(resT, st, name)
+	f.noteIOErr(st, r.T)
+	return r
+}
+
+func (f *frame) markOpen(st *State, ref string, cond string) {
+	_, open, count, _, _, _ := ioHeaps(f.c.g)
+	st.heaps[open] = f.c.define("open", "(Array Ref Bool)", fmt.Sprintf("(ite %s (store %s %s true) %s)", cond, st.Heap(open), ref, st.Heap(open)))
+	st.heaps[count] = f.c.define("opencount", SInt, fmt.Sprintf("(ite %s (+ %s 1) %s)", cond, st.Heap(count), st.Heap(count)))
+}
+
+func extOpenResource(f *frame, cm *ssa.CallCommon, args []Val, st *State, name string, resT types.Type, pos token.Pos) Val {
+	c := f.c
+	pre := st.next
+	f.havocNext(st)
+	r := f.freshResult(resT, st, name)
+	file, err := r.Tuple[0], r.Tuple[1]
+	ok := fmt.Sprintf("(= (itag %s) 0)", err.T)
+	_, open, _, _, _, _ := ioHeaps(c.g)
+	c.assume(st, fmt.Sprintf("(ite %s (and (not (= %s nil)) (not (alloc %s %s)) (not (select %s %s))) (= %s nil))", ok, file.T, file.T, pre, st.Heap(open), file.T, file.T))
+	f.noteIOErr(st, err.T)
+	f.markOpen(st, file.T, ok)
+	return r
+}
+
+func extZipNewWriter(f *frame, cm *ssa.CallCommon, args []Val, st *State, name string, resT types.Type, pos token.Pos) Val {
+	c := f.c
+	pre := st.next
+	f.havocNext(st)
+	r := f.freshResult(resT, st, name)
+	_, open, _, zdom, _, _ := ioHeaps(c.g)
+	c.assume(st, fmt.Sprintf("(and (not (= %s nil)) (not (alloc %s %s)) (not (select %s %s)))", r.T, r.T, pre, st.Heap(open), r.T))
+	f.markOpen(st, r.T, "true")
+	st.heaps[zdom] = "((as const (Array Str Bool)) false)"
+	c.assumed[ioAssumption] = true
+	return r
+}
+
+func extZipCreate(f *frame, cm *ssa.CallCommon, args []Val, st *State, name string, resT types.Type, pos token.Pos) Val {
+	c := f.c
+	pre := st.next
+	f.havocNext(st)
+	r := f.freshResult(resT, st, name)
+	w, err := r.Tuple[0], r.Tuple[1]
+	_, _, _, _, _, zentry := ioHeaps(c.g)
+	ok := fmt.Sprintf("(= (itag %s) 0)", err.T)
+	c.assume(st, fmt.Sprintf("(=> %s (and (not (= (itag %s) 0)) (not (= (iref %s) nil)) (not (alloc (iref %s) %s))))", ok, w.T, w.T, w.T, pre))
+	st.heaps[zentry] = c.define("zipentry", "(Array Ref Str)", fmt.Sprintf("(ite %s (store %s (iref %s) %s) %s)", ok, st.Heap(zentry), w.T, args[1].T, st.Heap(zentry)))
+	f.noteIOErr(st, err.T)
+	return r
+}
+
+// invZipEntryWrite: Write on an io.Writer (in the code under contract these are zip entry writers).
+func invZipEntryWrite(f *frame, cm *ssa.CallCommon, recv Val, args []Val, st *State, name string, resT types.Type, pos token.Pos) Val {
+	c := f.c
+	r := f.freshResult(resT, st, name)
+	n, err := r.Tuple[0], r.Tuple[1]
+	_, _, _, zdom, zdata, zentry := ioHeaps(c.g)
+	ok := fmt.Sprintf("(= (itag %s) 0)", err.T)
+	c.assume(st, fmt.Sprintf("(=> %s (= %s (slen %s)))", ok, n.T, args[0].T))
+	ent := fmt.Sprintf("(select %s (iref %s))", st.Heap(zentry), recv.T)
+	st.heaps[zdom] = c.define("zipdom", "(Array Str Bool)", fmt.Sprintf("(ite %s (store %s %s true) %s)", ok, st.Heap(zdom), ent, st.Heap(zdom)))
+	st.heaps[zdata] = c.define("zipdata", "(Array Str Slice)", fmt.Sprintf("(ite %s (store %s %s %s) %s)", ok, st.Heap(zdata), ent, args[0].T, st.Heap(zdata)))
+	f.noteIOErr(st, err.T)
+	return r
+}
+
+// extCloseResource: Close of a file or zip writer. Closing a resource that is not open (never opened,
+// or already closed successfully) returns an error and changes nothing; closing an open one either
+// succeeds (it is then closed) or fails (recorded as an I/O failure; it stays not-successfully-closed).
+func extCloseResource(f *frame, cm *ssa.CallCommon, args []Val, st *State, name string, resT types.Type, pos token.Pos) Val {
+	c := f.c
+	r := f.freshResult(resT, st, name)
+	fail, open, count, _, _, _ := ioHeaps(c.g)
+	isOpen := fmt.Sprintf("(select %s %s)", st.Heap(open), args[0].T)
+	ok := fmt.Sprintf("(= (itag %s) 0)", r.T)
+	c.assume(st, fmt.Sprintf("(=> (not %s) (not %s))", isOpen, ok))
+	closed := c.define("closedok", SBool, fmt.Sprintf("(and %s %s)", isOpen, ok))
+	st.heaps[fail] = c.define("iofail", SBool, fmt.Sprintf("(or %s (and %s (not %s)))", st.Heap(fail), isOpen, ok))
+	st.heaps[count] = c.define("opencount", SInt, fmt.Sprintf("(ite %s (- %s 1) %s)", closed, st.Heap(count), st.Heap(count)))
+	st.heaps[open] = c.define("open", "(Array Ref Bool)", fmt.Sprintf("(ite %s (store %s %s false) %s)", closed, st.Heap(open), args[0].T, st.Heap(open)))
+	c.assumed[ioAssumption] = true
+	return r
 }
